@@ -208,11 +208,15 @@ func (t *TrackedWriter) Close() error {
 	return t.BlobWriter.Close()
 }
 func (t *TrackedWriter) Commit(d ociregistry.Digest) (ociregistry.Descriptor, error) {
-	t.mu.Lock()
-	t.done++
-	t.mu.Unlock()
 	t.op("commit")
-	return t.BlobWriter.Commit(d)
+	desc, err := t.BlobWriter.Commit(d)
+	if err == nil {
+		// (a Commit that fails ends nothing: the writer still has to be closed or cancelled)
+		t.mu.Lock()
+		t.done++
+		t.mu.Unlock()
+	}
+	return desc, err
 }
 func (t *TrackedWriter) Cancel() error {
 	t.mu.Lock()
